@@ -25,7 +25,7 @@ func init() {
 				"separator function's second result).",
 			Rules: []string{
 				"R8.1 map-order independence: in every library function, a map-range loop with a cross-key deletion/insertion on the ranged map has no loop-carried value and no other effect; no floating-point accumulator in any map-range loop",
-				"R8.2 stored count: the integer stored into the result's count field is phi(0, acc+1) of a range loop over the dedupe map from which no mutation of that map is reachable; the increment is guarded only by pure conditions on the key (strings.Title(k) == k)",
+				"R8.2 (also: the kept set the size and the count are taken from depends on the set of input words only = C10 R10.2/R10.3 re-run) stored count: the integer stored into the result's count field is phi(0, acc+1) of a range loop over the dedupe map from which no mutation of that map is reachable; the increment is guarded only by pure conditions on the key (strings.Title(k) == k)",
 				"R8.3 ledger: the addends of WLRecipe.Entropy() are exactly entropySimple(Length, int(Size())) unguarded; float(Length) under {all-capitalisable, Capitalize==CSRandom}; log2(float(Length)) under {all-capitalisable, Capitalize==CSOne}; (float(Length)-1)*sepEnt with sepEnt = phi(0, second result of SeparatorFunc()) under SeparatorFunc != nil; no other addend, no other condition",
 				"R8.3b entropySimple(l,n) = float(l) * log2(float(n)); isAllCapitalizable() = (count == 0)",
 				"R8.4 purity of Entropy(): no shared write (EFF), separator function's string result unused",
@@ -48,6 +48,11 @@ func runC08(p *core.Program, r *core.Report) {
 	// R8.2
 	if c := resolveWLCtor(p, r, "R8.2"); c != nil {
 		checkStoredCount(p, r, c)
+		// the size and the count are functions of the kept set: it must depend on the
+		// set of input words only (= C10 R10.2/R10.3 re-run)
+		if c2 := resolveWLCtor(p, r, "R8.2"); c2 != nil {
+			r.Borrow("R8.2", func() { checkKeptSet(p, r, c2) })
+		}
 	}
 
 	// R8.3
